@@ -10,10 +10,10 @@ Theorem paths_within_fuel : forall timing,
 Proof. intros [|]; vm_compute; reflexivity. Qed.
 Print Assumptions paths_within_fuel.
 
-(* the only file-system writes in refurb (outside `refurb gen`): the temp file and the
-   --timing-stats file *)
+(* the only file-system writes in refurb (outside `refurb gen`), with what each one writes to:
+   the temp file it created itself and the --timing-stats path exactly as the user gave it *)
 Theorem write_sites_confined :
-  write_sites = ["refurb/main.py:mkstemp"; "refurb/main.py:unlink"; "refurb/main.py:write_text"]%string.
+  write_sites = ["refurb/main.py:mkstemp@"; "refurb/main.py:unlink@mypy_timing_stats"; "refurb/main.py:write_text@settings.timing_stats"]%string.
 Proof. reflexivity. Qed.
 Print Assumptions write_sites_confined.
 
